@@ -114,6 +114,19 @@ Definition parse_format (fmt : list tok) : option (list tok) * Z :=
       end
   end.
 
+(* sorted(entries): a stable sort that only calls '<'.  Insertion from the right; x goes in front of the
+   first element that is not smaller than x, so equal elements keep their order. *)
+Section Sort.
+  Context {A : Type} (lt : A -> A -> bool).
+  Fixpoint insert (x : A) (l : list A) : list A :=
+    match l with
+    | [] => [x]
+    | y :: l' => if lt y x then y :: insert x l' else x :: y :: l'
+    end.
+  Fixpoint isort (l : list A) : list A :=
+    match l with [] => [] | x :: l' => insert x (isort l') end.
+End Sort.
+
 Section Model.
   Context {K : Type} (ck : str -> K) (keqb kltb : K -> K -> bool).
   Context (tx : list tok -> str) (src : list tok -> str).
@@ -172,18 +185,7 @@ Section Model.
     else if lex_lt okey_eqb okey_lt (cmpkey_orig b) (cmpkey_orig a) then false
     else (length (e_key a) <? length (e_key b))%nat.
 
-  (* sorted(entries): a stable sort that only calls '<'.  Insertion from the right; x goes in front of the
-     first element that is not smaller than x, so equal elements keep their order. *)
-  Section Sort.
-    Context (lt : entry -> entry -> bool).
-    Fixpoint insert (x : entry) (l : list entry) : list entry :=
-      match l with
-      | [] => [x]
-      | y :: l' => if lt y x then y :: insert x l' else x :: y :: l'
-      end.
-    Fixpoint isort (l : list entry) : list entry :=
-      match l with [] => [] | x :: l' => insert x (isort l') end.
-  End Sort.
+  (* sorted(entries) is [isort entry_lt entries], see below the Section *)
 
   (* ============================================================================================== *)
   (* IndexUtils.digest : the index tree.  Index nodes: key (fragment, as tokens), sortkey, pages, children. *)
@@ -268,11 +270,12 @@ Section Model.
   Definition prev0 : entry := mkEntry [] [] None 0 0.          (* IndexEntry([], None) *)
 
   (* entries = sorted(userdata['index']); the loop; the resulting children of the index node *)
-  Definition digest (es : list entry) : option (list node) :=
-    match digest_loop prev0 (isort entry_lt es) ([], []) with
+  Definition digest_with (lt : entry -> entry -> bool) (es : list entry) : option (list node) :=
+    match digest_loop prev0 (isort lt es) ([], []) with
     | Some (sp, R) => Some (close sp [] R)
     | None => None
     end.
+  Definition digest : list entry -> option (list node) := digest_with entry_lt.
 
   (* ============================================================================================== *)
   (* Index.totallen, IndexUtils.splitColumns, IndexUtils.groups *)
